@@ -194,6 +194,7 @@ class Adapter:
     can_saveload = True
 
     hyperbolic = False
+    also_parabolic = False   # a hyperbolic configuration whose class stores and restores the same keys under the parabolic scheme
     algo = None       # time algorithm of this case (name of an AlgoType member), None = the adapter's default
     alpha = None
     time_dependent = False
@@ -202,6 +203,10 @@ class Adapter:
         self.nmesh_made = 0
 
     def set_hyperbolic(self, simu, dt_implicit, dt_explicit):
+        if self.algo == "parabolic":
+            # a first-order (parabolic) scheme on a class that also accepts the hyperbolic ones (also_parabolic)
+            simu.Solver_Set_Parabolic_Algorithm(dt=dt_implicit, alpha=self.alpha if self.alpha is not None else 0.5)
+            return
         algo = AlgoType(self.algo or "newmark")
         kw = {}
         if self.alpha is not None and algo in (AlgoType.hht, AlgoType.hht_newmark):
@@ -332,6 +337,7 @@ class ElasticStatic(Adapter):
 class ElasticDyn(ElasticStatic):
     name = "Elastic_newmark"
     hyperbolic = True
+    also_parabolic = True
     keys = ["displacement", "speed", "accel"]
     results = ["displacement", "speed", "accel"]
 
@@ -1225,7 +1231,7 @@ def main():
                 if not cls.hyperbolic:
                     continue
                 sup[name] = []
-                for a in hyp:
+                for a in hyp + (["parabolic"] if cls.also_parabolic else []):
                     ad = cls()
                     ad.algo = a
                     try:
